@@ -61,6 +61,10 @@ def build_capsule(rng, base):
         "apple": ["pie.gmi"],
         "nolist": ["only.gmi"],
         "space dir": ["a b.gmi"],
+        # the same visible name in two Unicode forms: decomposed (protected by a rule spelled the same way) and
+        # composed (a different, unprotected directory)
+        "re\u0301serve\u0301": ["plan.gmi"],
+        "r\u00e9serv\u00e9": ["menu.gmi"],
     }
     for d, files in layout.items():
         dp = os.path.join(root, d)
@@ -69,7 +73,7 @@ def build_capsule(rng, base):
         loc_d = "/" + (d + "/" if d else "")
         meta["dirs"][loc_d] = marker
         for f in files + [marker]:
-            if f == "index.gmi" and d in ("nolist", "apple", "app/admin", "space dir"):
+            if f == "index.gmi" and d in ("nolist", "apple", "app/admin", "space dir", "re\u0301serve\u0301", "r\u00e9serv\u00e9"):
                 continue
             tok = fstree.token(rng)
             with open(os.path.join(dp, f), "w") as fh:
@@ -93,6 +97,7 @@ def rule_sets(fpA, fpB):
         "list-without-require": [{"prefix": "/docs/", "require_cert": False, "allowed_fingerprints": [fpB]}],
         "deep-first": [{"prefix": "/app/admin/deep/", "require_cert": True, "allowed_fingerprints": [fpB]}, {"prefix": "/app/admin/", "require_cert": True, "allowed_fingerprints": [fpA, fpB]}, {"prefix": "/docs/", "require_cert": True}],
         "space-dir": [{"prefix": "/space dir/", "require_cert": True}],
+        "decomposed-unicode-dir": [{"prefix": "/re\u0301serve\u0301/", "require_cert": True, "allowed_fingerprints": [fpA]}],
     }
 
 
